@@ -20,7 +20,9 @@ theorem fact_consumer_calls :
     Facts.C05.callsReqObjGet = (Kind.burn .reqObj).apiCalls ∧
     Facts.C05.callsReqObjPost = (Kind.burn .reqObj).apiCalls ∧
     Facts.C05.callsVpNonce = (Kind.burn .vpNonce).apiCalls ∧
-    Facts.C05.callsRedirect.take 1 = (Kind.burn .redirect).apiCalls := by decide
+    Facts.C05.callsRedirect.take 1 = (Kind.burn .redirect).apiCalls ∧
+    Facts.C05.callsS2S = (Kind.mark .s2s).apiCalls ∧
+    Facts.C05.callsJti = (Kind.mark .jti).apiCalls := by decide
 
 /-- the one-time stores are used by exactly these functions: the four issuing functions `Put` (fresh random keys),
     every other access is one of the modelled consumers -/
@@ -28,14 +30,14 @@ theorem fact_store_users :
     Facts.C05.storeUsers =
       ["RequestJWTByGet:authzRequestObjectStore.GetAndDelete", "RequestJWTByPost:authzRequestObjectStore.GetAndDelete",
        "RequestUserAccessToken:userRedirectStore.Put",
-       "ValidateDPoPProof:useNonceOnceStore.Get", "ValidateDPoPProof:useNonceOnceStore.Put",
+       "ValidateDPoPProof:useNonceOnceStore.PutIfAbsent",
        "createAuthorizationRequest:authzRequestObjectStore.Put",
        "handleAccessTokenRequest:oauthCodeStore.Delete", "handleAccessTokenRequest:oauthCodeStore.GetAndDelete",
        "handleAuthorizeResponseSubmission:oauthCodeStore.Put",
        "handleUserLanding:userRedirectStore.GetAndDelete",
        "nextOpenID4VPFlow:oauthNonceStore.Put",
        "validatePresentationNonce:oauthNonceStore.Delete", "validatePresentationNonce:oauthNonceStore.GetAndDelete",
-       "validateS2SPresentationNonce:s2sNonceStore.Get", "validateS2SPresentationNonce:s2sNonceStore.Put"] := by decide
+       "validateS2SPresentationNonce:s2sNonceStore.PutIfAbsent"] := by decide
 
 /-- each consumer kind has its own namespace (store prefix): the model's keys carry the kind -/
 theorem fact_prefixes_distinct : (Kind.all.map todayPrefix).Nodup := by decide
